@@ -1062,6 +1062,25 @@ fn run_case(line: &str) -> String {
             let u = parse_u64(t[2]);
             with_float!(t[1], F, { format!("{:x}", F::from_u64(u).to_bits()) })
         },
+        // powd <xbits> <ybits> / powf <xbits> <ybits>: the bundled libm (only compiled in the no_std + compact build)
+        #[cfg(all(not(feature = "std"), feature = "compact"))]
+        "powd" => {
+            let r = minimal_lexical::libm::powd(f64::from_bits(parse_u64(t[1])), f64::from_bits(parse_u64(t[2])));
+            if r.is_nan() {
+                "none".into()
+            } else {
+                format!("{}", r.to_bits())
+            }
+        },
+        #[cfg(all(not(feature = "std"), feature = "compact"))]
+        "powf" => {
+            let r = minimal_lexical::libm::powf(f32::from_bits(parse_u64(t[1]) as u32), f32::from_bits(parse_u64(t[2]) as u32));
+            if r.is_nan() {
+                "none".into()
+            } else {
+                format!("{}", r.to_bits())
+            }
+        },
         // core <fmt> <decimal string>  (Rust core's parser as an independent oracle)
         "core" => match t[1] {
             "f32" => match t[2].parse::<f32>() {
